@@ -554,6 +554,19 @@ def make_reject(rng, what):
     rep = rng.choice(gen.REPS)
     date = pick_date(rng, rep, 0)
     cfg = cfg_key(rng)
+    if what == "mix-zone":
+        # date and time in one notation, an offset with minutes in the other
+        ext = rng.random() < 0.5
+        tform = rng.choice(("hms", "hmsf", "hmf", "hm"))
+        ttxt = spell_time(rng, tform, ext)[0]
+        off = rng.choice(((5, 30), (-5, -30), (1, 0), (-1, 0), (0, 45),
+                          (0, -45), (13, 45), (-11, -15)))
+        text = T.enc_date(rep, date, ext) + "T" + ttxt + \
+            T.enc_zone(off, "hhmm", not ext)
+        return {"op": "parse", "cfg": cfg, "text": text, "local": [0, 0],
+                "expect": {"kind": "reject", "tag": "reject/" + what,
+                           "cfg": cfg,
+                           "why": "offset spelled in the other notation"}}
     if what == "mix-basic-date-ext-time":
         tform = rng.choice(("hms", "hmsf", "hmf", "hm"))
         ttxt = spell_time(rng, tform, True)[0]
@@ -812,6 +825,15 @@ def workload(ctx, repo):
                              cfg=cfg)
             ctx.cls("basic-only-accepts")
         ctx.case = case
+        run_case(ctx, repo, case)
+    ctx.target("reject/mix-zone")
+    for r in range(40 * reps):
+        i += 1
+        if not ctx.mine(i):
+            continue
+        case = make_reject(rng, "mix-zone")
+        ctx.case = case
+        ctx.ev("cases.mix-zone")
         run_case(ctx, repo, case)
     # 5. truncated forms
     for dform in TRUNC_DATES:
